@@ -213,6 +213,29 @@ pub fn run(tier: Tier) -> Run {
             }
         })
         .collect();
+    let mut results = results;
+    // quick: every number that agrees with a declared value in its LOW 16 bits (a truncated comparison, a 16-bit key,
+    // a hash of the low half: 65536 numbers per declared value)
+    if tier == Tier::Quick {
+        let work: Vec<(&EnumOps, Vec<u32>, u32)> = enum_ops.iter().flat_map(|e| { let d: Vec<u32> = g.enums[e.name].declared().into_iter().collect(); let mut lows: Vec<u32> = d.iter().map(|x| x & 0xFFFF).collect(); lows.sort(); lows.dedup(); lows.into_iter().map(move |l| (e, d.clone(), l)) }).collect();
+        let extra: Vec<(String, u64, u64, Vec<(u32, &'static str)>)> = work
+            .par_iter()
+            .map(|(e, d, low)| {
+                let mut acc = 0u64;
+                let mut bad = vec![];
+                for hi in 0..=0xFFFFu32 {
+                    let x = ((hi << 16) | low) as u64;
+                    let (a, b) = (e.sweep)(x, x, d);
+                    acc += a;
+                    if bad.len() < 4 {
+                        bad.extend(b);
+                    }
+                }
+                (e.name.to_string(), 65536u64, acc, bad)
+            })
+            .collect();
+        results.extend(extra);
+    }
     let mut evals = 0u64;
     let mut accepted = 0u64;
     for (name, n, acc, bad) in results {
